@@ -584,7 +584,7 @@ async fn grpc_stream(
             .status(200)
             .header("content-type", "application/grpc")
             .header("grpc-status", grpc_status.to_string())
-            .header("grpc-message", "simulated failure")
+            .header("grpc-message", grpc_message(&col))
             .body(())
             .unwrap();
         let _ = respond.send_response(response, true);
@@ -627,7 +627,7 @@ async fn grpc_stream(
             let mut trailers = http::HeaderMap::new();
             trailers.insert("grpc-status", http::HeaderValue::from_str(&grpc_status.to_string()).unwrap());
             if grpc_status != 0 {
-                trailers.insert("grpc-message", http::HeaderValue::from_static("simulated failure"));
+                trailers.insert("grpc-message", grpc_message(&col));
             }
             send.send_trailers(trailers).is_ok()
         }
@@ -636,6 +636,22 @@ async fn grpc_stream(
     entry.acked = ok && grpc_status == 0 && entry.body_complete;
     entry.done_at = Some(col.sched.now());
     col.log.lock().unwrap().push(entry);
+}
+
+/// What a failing gRPC server says about it: short, long, percent-encoded UTF-8 (what the gRPC spec asks for), raw
+/// non-ASCII bytes (what some servers send anyway), or nothing.
+fn grpc_message(col: &Arc<Collector>) -> http::HeaderValue {
+    let (kind, reps) = {
+        let mut g = col.sched.lock();
+        (g.choices.weighted(&[6, 1, 2, 1, 1]), 2 + g.choices.choose(10) as usize)
+    };
+    match kind {
+        0 => http::HeaderValue::from_static("simulated failure"),
+        1 => http::HeaderValue::from_str(&"the simulated collector is overloaded, try again later; ".repeat(reps * 2)).unwrap(),
+        2 => http::HeaderValue::from_str(&"d%C3%A9faillance%20simul%C3%A9e%20%E2%80%94%20r%C3%A9essayez; ".repeat(reps)).unwrap(),
+        3 => http::HeaderValue::from_bytes("d\u{e9}faillance simul\u{e9}e \u{2014} r\u{e9}essayez; ".repeat(reps).as_bytes()).unwrap(),
+        _ => http::HeaderValue::from_static(""),
+    }
 }
 
 // ---------------------------------------------------------------------------------------------
